@@ -114,8 +114,11 @@ def mk_dev(uid, pid, name, cs, f, H, rng=None, job=0, dur=None):
     r = ref_of(name)
     suffix = next((p for p in PH if name.endswith(" " + p)), None)
     a, b = PH_AB.get(suffix, (0, 4))
+    # device streams: one lane per phase, and every fifth kernel runs on a second set of lanes (a lane may therefore be
+    # used for the first time long after the rank's first event - the correction is per RANK, not per lane)
+    lane = {"DmaI": 5, "Cmpt Prep": 7, "Cmpt Exec": 8, "DmaO": 9}.get(suffix, 6) + (20 if (uid // 4) % 5 == 4 else 0)
     return {"ph": "X", "pid": pid, "name": name, "ts": H + cs[r] / f,
-            "dur": (cs[b] - cs[a]) / f if dur is None else dur,
+            "dur": (cs[b] - cs[a]) / f if dur is None else dur, "tid": lane,
             "tsx": tsx_from_truth(cs, rng), "truth": list(cs), "uid": uid, "job": job, "H": H}
 
 
@@ -135,7 +138,7 @@ def to_dict(e, jobhash, use_attr=False):
             args[key] = t[1]
         elif t[0] == "b":
             args[key] = t[1]
-    d = {"ph": e["ph"], "pid": e["pid"], "tid": 7, "name": e["name"], "ts": e["ts"]}
+    d = {"ph": e["ph"], "pid": e["pid"], "tid": e.get("tid", 7), "name": e["name"], "ts": e["ts"]}
     if e["ph"] == "X":
         d["dur"] = e["dur"]
     args["uid"] = e["uid"]
